@@ -49,6 +49,9 @@ CLAIMED["C17"] = ("Plugins", "per-plugin entitlement tables as TLA+ operators ch
    "Expect4/Expect6 tables cover netmask, router, searchdomains, staticroute, dns, mtu, nbp, lease_time, ipv6only, autoconfigure, sleep for both protocols; all 33 parameter request lists incl. an absent one.", _PLUG_NOTE, "DESIGN.md section 3 C14/C17/C19")
 CLAIMED["C19"] = ("Plugins", "setup/handle as a two-state machine (rejected | accepted => every request handled without panic and with a round-tripping reply); all argument vectors of the tier's arity for all 15 plugins executed in one process each and validated by TLC; a child process dying is an observation without action",
    "~10^4 (quick) to ~4x10^4 (thorough) argument vectors x a battery of requests; fatal runtime errors of the code under test (not recoverable by recover()) are caught because every configuration runs in its own process.", _PLUG_NOTE + "; one recorded finding (prefix pools of 2^33..2^63 blocks die of OOM at start-up)", "DESIGN.md section 3 C14/C17/C19")
+CLAIMED["C18"] = ("Config", "config.Load as a TLA+ function from an abstract YAML document and the interface list to error | listener and plugin lists, shown by TLC to satisfy the declarative sentences on a product of documents; documents rendered to YAML text (several spellings), loaded by the real config.Load and the abstracted result compared by TLC; seeded text mutations for the no-panic clause",
+   "341952 abstract documents in Leg A; ~1600 (quick) to ~10^5 (thorough) rendered documents with every single listen specification and plugins-section shape, plus 2-6 mutated texts each.",
+   "trusted: harness/config.go (YAML rendering, abstraction of the result, interface flags), TLC; ports within 0..65535; the arbitrary-text axis is sampled, not exhaustive", "DESIGN.md section 3 C18")
 NOT_YET = {}
 
 def main():
